@@ -97,6 +97,20 @@ def run(E: Engine, rep: Report, tier: str) -> dict:
     # variables assigned before the to-build replay
     asg = [n.lineno for n in own_nodes(build) if isinstance(n, ast.Call) and isinstance(n.func, ast.Attribute) and n.func.attr == "_assign"]
     rep.check(bool(asg) and "to_build" in lines and max(asg) < lines["to_build"], "FLOW", "Sequence.build|assign-before-replay", "variables are assigned before parametrized calls are built", "variables are no longer assigned before the to-build replay", E.where(build))
+    # the concrete register is installed before the parametrized calls are replayed
+    flb = E.flow(build)
+    sr_call = None
+    loop = None
+    for n in own_nodes(build):
+        if isinstance(n, ast.Call) and isinstance(n.func, ast.Attribute) and n.func.attr == "_set_register":
+            sr_call = n
+        if isinstance(n, ast.For) and norm(n.iter) == "self._to_build_calls":
+            loop = n
+    if sr_call is None or loop is None:
+        raise AnalysisError("anchor: _set_register call / to-build loop not found in Sequence.build")
+    n_sr, n_loop = flb.node_of(sr_call), flb.node_of(loop.iter)
+    ok = n_sr is not None and n_loop is not None and n_sr.id not in flb.reachable_from(n_loop.id) and n_loop.id in flb.reachable_from(n_sr.id)
+    rep.check(ok, "FLOW", "Sequence.build|register-resolved-before-replay", "the mappable register is resolved (and global slots retargeted) before the to-build calls are replayed", "Sequence.build installs the concrete register after (part of) the to-build replay: instructions replayed before that still address all reserved qubit ids", E.where(build, sr_call))
     # ParamObj.build
     pb = E.method(PO, "build")
     c2 = _built_comprehensions(pb)
@@ -116,7 +130,7 @@ def run(E: Engine, rep: Report, tier: str) -> dict:
     ini = E.method(PO, "__init__")
     src = norm(ini.node)
     rep.check("chain(args, kwargs.values())" in src and "self._variables.update(x.variables)" in src, "FLOW", "ParamObj.__init__|collects-variables-of-args-and-kwargs", "variables of args and kwargs are collected", "ParamObj no longer collects the variables of both args and kwargs", E.where(ini))
-    rep.floor("FLOW", 9)
+    rep.floor("FLOW", 10)
 
     # --------------------------------------------------------------- PAIR
     var = P.cls(VAR)
